@@ -123,9 +123,19 @@ func cmdEvents(o *Out, line string, f []string) {
 		c = events.NewSamplingCollector(snap, n)
 	case "passthrough":
 		c = events.NewPassthroughCollector(snap)
+	case "randomT", "randomF": // n = percent (may be <= 0 or > 100: then the outcome is determined)
+		c = events.NewRandomSamplingCollector(snap, kind == "randomT", n)
+	case "interval0":
+		c = events.NewIntervalCollector(snap, 0)
+	case "intervalInf":
+		c = events.NewIntervalCollector(snap, time.Hour)
+	case "intervalT": // a real interval: which events are written depends on the clock
+		c = events.NewIntervalCollector(snap, 300*time.Microsecond)
 	default:
 		panic(kind)
 	}
+	gated := kind == "randomT" || kind == "randomF" || strings.HasPrefix(kind, "interval")
+	undetermined := kind == "intervalT" || ((kind == "randomT" || kind == "randomF") && n >= 1 && n <= 100)
 	ptrs := map[int]*events.Performance{}
 	var res []string
 	var vals []string // value of each non-nil event at call time ("" for nil)
@@ -155,12 +165,19 @@ func cmdEvents(o *Out, line string, f []string) {
 		} else {
 			res = append(res, "o")
 		}
+		if kind == "intervalT" && i%3 == 2 {
+			time.Sleep(200 * time.Microsecond)
+		}
 	}
 	var written []string
 	for _, d := range snap.docs {
 		written = append(written, docFields(d))
 	}
-	o.emit(line, fmt.Sprintf("%s written=[%s]", strings.Join(res, ""), strings.Join(written, " ")))
+	if undetermined {
+		o.emit(line, fmt.Sprintf("%s written=SUBSEQ", strings.Join(res, "")))
+	} else {
+		o.emit(line, fmt.Sprintf("%s written=[%s]", strings.Join(res, ""), strings.Join(written, " ")))
+	}
 	o.nontrivial(line)
 	o.count("events-" + kind)
 
@@ -203,10 +220,38 @@ func cmdEvents(o *Out, line string, f []string) {
 			collect = count%n == 0
 			count++
 		}
+		switch kind {
+		case "randomT", "randomF":
+			collect = n > 100 || undetermined // undetermined: `want` holds the totals of every event, see below
+		case "intervalInf":
+			collect = count == 0
+			count++
+		}
 		if collect {
 			want = append(want, i64s(cur))
 		}
 	}
+	if undetermined {
+		// whatever the random generator or the clock decided: every persisted sample is the running total of ALL events up
+		// to some event, in order (and the interval collector persists the first event)
+		j := 0
+		for _, w := range written {
+			for j < len(want) && want[j] != w {
+				j++
+			}
+			if j == len(want) {
+				o.violation(line, "a persisted sample is not the running total of all events up to any event (in order)", map[string]string{"sample": w})
+				return
+			}
+			j++
+		}
+		if kind == "intervalT" && len(want) > 0 && (len(written) == 0 || written[0] != want[0]) {
+			o.violation(line, "the interval collector did not persist the first event", nil)
+			return
+		}
+		want = written
+	}
+	_ = gated
 	if strings.Join(want, " ") != strings.Join(written, " ") {
 		k := 0
 		for k < len(want) && k < len(written) && want[k] == written[k] {
@@ -321,8 +366,11 @@ func streamEvents(o *Out, rng *rand.Rand, thorough bool, _ []string) {
 		n = 10000
 	}
 	for i := 0; i < n; i++ {
-		kind := []string{"basic", "sampling", "passthrough"}[rng.Intn(3)]
+		kind := []string{"basic", "sampling", "passthrough", "randomT", "randomF", "interval0", "intervalInf", "intervalT"}[rng.Intn(8)]
 		rate := 1 + rng.Intn(7)
+		if kind == "randomT" || kind == "randomF" {
+			rate = []int{-5, 0, 1, 30, 50, 80, 99, 100, 101, 150}[rng.Intn(10)]
+		}
 		L := 1 + rng.Intn(12)
 		var toks []string
 		gen := randPerf
